@@ -867,6 +867,11 @@ func (r *runningStep) provideEnablingInput(input map[string]any) error {
 	// This is an optional field, so no input means enabled.
 	enabled := input["enabled"] == nil || input["enabled"] == true
 	r.enabledInputAvailable = true
+	// Make sure we transition the state before unlocking so the step is not seen as waiting for
+	// input it has already been given.
+	if r.state == step.RunningStepStateWaitingForInput && r.currentStage == StageIDEnabling {
+		r.state = step.RunningStepStateRunning
+	}
 	r.enabledInput <- enabled
 	return nil
 }
@@ -899,6 +904,9 @@ func (r *runningStep) provideStartingInput(input map[string]any) error {
 
 	// Make sure we transition the state before unlocking so there are no race conditions.
 	r.runInputAvailable = true
+	if r.state == step.RunningStepStateWaitingForInput && r.currentStage == StageIDStarting {
+		r.state = step.RunningStepStateRunning
+	}
 
 	// Unlock before passing the data over the channel to prevent a deadlock.
 	// The other end of the channel needs to be unlocked to read the data.
